@@ -21,6 +21,7 @@ import (
 	"fmt"
 
 	apps "github.com/pingcap/advanced-statefulset/client/apis/apps/v1"
+	"github.com/pingcap/advanced-statefulset/client/apis/apps/v1/helper"
 	clientset "github.com/pingcap/advanced-statefulset/client/client/clientset/versioned"
 	statefulsetlisters "github.com/pingcap/advanced-statefulset/client/client/listers/apps/v1"
 	metav1 "k8s.io/apimachinery/pkg/apis/meta/v1"
@@ -62,6 +63,10 @@ func (ssu *realStatefulSetStatusUpdater) UpdateStatefulSetStatus(
 		if updated, err := ssu.setLister.StatefulSets(set.Namespace).Get(set.Name); err == nil {
 			// make a copy so we don't mutate the shared cache
 			set = updated.DeepCopy()
+			// the write may have conflicted because the user has just paused the set: from here on it is left alone
+			if helper.GetPausedReconcile(set) {
+				return nil
+			}
 		} else {
 			utilruntime.HandleError(fmt.Errorf("error getting updated StatefulSet %s/%s from lister: %v", set.Namespace, set.Name, err))
 		}
